@@ -1,7 +1,7 @@
 from common import COMMON_TB
 
 CONFIG = {
-    "lean_modules": ["SA.Props.C10"],
+    "lean_modules": ["SA.Props.C10", "SA.Props.C10Par", "SA.Props.C10Domain"],
     "level_text": "Proof over all record types and payload lengths, with two stated exclusions. Proved in Lean: "
                   "C10_sort_inverts_tagging (generic key lemma: records tagged o, o+1, ... whose decoded key is strictly increasing, in "
                   "any arrival order, under any sort that returns an ordered permutation - all sort.Slice promises - unwrap to the pieces "
@@ -16,7 +16,13 @@ CONFIG = {
                   "Earlier: C10_partial (one record), C10_error_reported_wrap/_wire, C10_private_registered / C10_unwrap_undoes_escaping "
                   "(facts regenerated from the source), kernel-checked witnesses (A/AAAA residue, SRV label, Raw over CNAME => not C10_full). "
                   "The model is tied to the Go code by running both through the real serializer, wrap.go and miekg Pack/Unpack and "
-                  "comparing outcome class, record count, unwrapped length and every decoded field.",
+                  "comparing outcome class, record count, unwrapped length and every decoded field. Concurrency (SA.Props.C10Par): "
+                  "C10_batch_pointwise / C10_concurrent_no_silent_corruption / C10_par_op_pointwise - a batch of responses handled at "
+                  "the same moment is pointwise the single outcomes; tied by the `par` op (G goroutines through the real shared codec "
+                  "singletons, wrap.go and serializers; every result compared with the same response processed alone). Domain "
+                  "spellings (SA.Props.C10Domain): C10_fqdn_domain_reported - over a tunnel domain written with its final dot every "
+                  "MX/CNAME/SRV answer is a reported failure (wrap or pack error), never a decoded response; the model takes the "
+                  "domain as configured (any spelling) and agrees with the code on all 37 spellings driven.",
     "level_note": "Excluded from the theorems: (1) Raw / any payload containing '.' or '\\' over CNAME/MX/SRV - open finding "
                   "C10-raw-over-names; (2) record counts beyond the tag range - open finding C10-order-tag-wrap (confirmed on the real code: "
                   "AAAA 65537 records and TXT 513 records decode a different response silently; unreachable through the server, whose "
@@ -24,7 +30,7 @@ CONFIG = {
                   "(3) for CNAME/MX/SRV the domain must consist of plain host-name labels (DomainOk; a domain with characters that miekg "
                   "escapes leaks into the payload - correspondence-checked only). miekg/dns record packing (incl. the 16-bit ANCOUNT) is "
                   "modelled, not verified. Codecs are parameters (hypothesis: C08's roundtrip; Base32/64/64u/Raw computed locally, "
-                  "Base85/91/128 looked up from the op line). Error texts containing NUL are excluded (decoder reads them with "
+                  "Base85/91/128 looked up from the op line; the driver runs property C08's models for Base32/64/64u/Raw). Error texts containing NUL are excluded (decoder reads them with "
                   "ReadString(0)). Domains so long that GetLongestDataString <= 0 are outside the model (the SRV wrapper would loop "
                   "forever). That CNAME/MX never succeed with more than one record is not a theorem (C10_reassembly does not need it).",
     "technique": "Lean 4 proof (induction over the wrapper loops, generic sort/tag lemma, round-trip lemmas) + kernel-checked witnesses + model/code differential correspondence",
@@ -40,6 +46,12 @@ CONFIG = {
             "(backslash, quote, NUL, 0x1f, 0x7f, 0xff, dot, semicolon) and escape look-alikes (\\123, \\\\, \\\", \\.) at "
             "every stream offset boundary-4..+4 (thorough -8..+8); Raw places them directly, Base85/91/128 are searched "
             "through the real encoder until the encoded stream has a backslash/quote/high/low/dot byte at that offset. "
+            "(6) concurrent batches `par G iters ops`: per codec 8 users' packet responses over one record type (equal and "
+            "different lengths, a duplicate, another response kind) and 8 mixed batches of 12 (codecs x record types x kinds), "
+            "G=24 x 30 iterations (thorough 4 rounds, G=48 x 100). "
+            "(7) 37 spellings of the tunnel domain (final dot, upper/mixed case, one label, 12 labels, 63/64-octet label, "
+            "200/230/240 characters, characters miekg escapes - raw and as \\DDD / \\c -, empty labels, lone dot, dangling "
+            "backslash) x 8 record types x 4-5 codecs (thorough 7) x {poll, version, 3 payload sizes (thorough 9)}. "
             "non-trivial = client decoded the same response; distinct = distinct op line. Monitor: decoded == sent or an "
             "error was reported; silent difference and panic fail",
     "trusted_base": COMMON_TB + ["models SA.Model.DnsWire / DnsResp hand-written; tied by per-op comparison of outcome class, "
